@@ -34,7 +34,8 @@ EXPLANATION = (
     "the matching pair.  O1 and O3 together imply, for every integer request 0..max, that the "
     "result is min{k in table : k >= request}; requests above max raise.  (O4) every pair has its "
     "data file, (O5) the sequence converter is element-wise consistent, (O6) the constructors "
-    "store the resolved values.  No lookup is executed.")
+    "store the resolved values; no validation guard of the resolver is certainly true for a request "
+    "of exactly zero (three-valued evaluation).  No lookup is executed.")
 RULE = "one obligation per table (O1,O2), per lookup branch (O3 x5 sub-obligations), per table entry (O4), per site (O5,O6)"
 
 
